@@ -422,6 +422,13 @@ def run(ctx):
     if why:
         ctx.problem('oracle', 'property fails on the implementation: ' + why, inputs={'suite': 'later_arguments'}, failing_input_found=True)
     for _ in range(ctx.n(12, 100)):
+        why = oracle_lmi(ctx.rng)
+        ctx.evaluations += 1
+        ctx.count('constraint_kind', 'lmi(oracle only)')
+        if why:
+            ctx.problem('oracle', 'property fails on the implementation: ' + why, inputs={'suite': 'lmi'}, failing_input_found=True)
+            break
+    for _ in range(ctx.n(12, 100)):
         why = oracle_powcone(ctx.rng)
         ctx.evaluations += 1
         ctx.count('constraint_kind', 'powcone(oracle only)')
@@ -452,6 +459,45 @@ def oracle_later_arguments(rng):
         st, val = cl.Problem(cl.MIN, ya[0] + ya[1] - za[0], cons + [ya >= -1, za <= 1]).solve(verbose=False)
         if st == 'solved' and not (np.all(np.isfinite(ya.value)) and np.all(np.isfinite(za.value))):
             return 'after a solve the Variables la_y / la_z hold %s / %s' % (ya.value, za.value)
+    return None
+
+
+def oracle_lmi(rng):
+    """linear matrix inequalities are outside the row model; semantic check: for sampled symmetric X, the rows the constraint compiles to
+    (the upper triangle of the matrix argument in row-major order, K = P of length k(k+1)/2) form a positive semidefinite matrix iff the inequality as written holds
+    (X << M means M - X is PSD, X >> M means X - M is PSD)"""
+    import sageopt.coniclifts as cl
+    from sageopt.coniclifts.constraints.set_membership.psd_cone import PSD
+    k = rng.choice([1, 2, 3])
+    X = cl.Variable(shape=(k, k), name='lmiX', var_properties=['symmetric'])
+    Mh = np.array([[float(rng.choice([0, 1, -1, 2])) for _ in range(k)] for _ in range(k)])
+    M = (Mh + Mh.T) / 2 + np.eye(k)
+    how = rng.choice(['<<', '>>', 'PSD(M - X)', 'PSD(X - M)'])
+    with warnings.catch_warnings():
+        warnings.simplefilter('ignore')
+        con = {'<<': lambda: X << M, '>>': lambda: X >> M, 'PSD(M - X)': lambda: PSD(M - X), 'PSD(X - M)': lambda: PSD(X - M)}[how]()
+        A, b, K, vm, vs, _ = cl.compile_constrained_system([con])
+    if [(co.type, co.len) for co in K] != [('P', k * (k + 1) // 2)]:
+        return 'an LMI on a %dx%d matrix compiles to cones %s' % (k, k, [(co.type, co.len) for co in K])
+    cols = vm[X.name]
+    for _ in range(40):
+        Vh = np.array([[float(rng.choice([0, 1, -1, 2, -2, 0.5])) for _ in range(k)] for _ in range(k)])
+        V = (Vh + Vh.T) / 2
+        z = np.zeros(A.shape[1])
+        for i_ in range(k):
+            for j_ in range(k):
+                z[cols[i_, j_]] = V[i_, j_]
+        r = np.asarray(A @ z + b).ravel()
+        S = np.zeros((k, k))
+        S[np.triu_indices(k)] = r
+        S = S + np.triu(S, 1).T
+        want_mat = (M - V) if how in ('<<', 'PSD(M - X)') else (V - M)
+        ew, eg = np.linalg.eigvalsh(want_mat), np.linalg.eigvalsh(S)
+        if min(abs(ew.min()), abs(eg.min())) < 1e-6:
+            continue
+        if (ew.min() >= 0) != (eg.min() >= 0) or not np.allclose(S, want_mat, atol=1e-12):
+            return ('the constraint "X %s" with M = %s: at X = %s the inequality as written %s, but the compiled rows form the matrix %s (min eigenvalue %g)'
+                    % (how if how in ('<<', '>>') else how, M.tolist(), V.tolist(), 'holds' if ew.min() >= 0 else 'fails', S.tolist(), eg.min()))
     return None
 
 
